@@ -2,6 +2,7 @@ package props
 
 import (
 	"fmt"
+	"net/url"
 	"strings"
 	"time"
 
@@ -93,7 +94,7 @@ func c17Monitor(st *engine.Step) {
 			}
 		}
 		for _, line := range post.Log {
-			if strings.Contains(line, sec.val) {
+			if containsAnySpelling(line, sec.val) {
 				st.Report(engine.Violation{Rule: "C17/secret-in-log", Attrs: "secret=" + sec.kind + ",request=" + kindOf(st),
 					Detail: fmt.Sprintf("a log line written during %s contains the %s %s: %s", st.Act.Name, sec.kind, flows.Label(sec.val), trunc(strings.TrimSpace(line), 200))})
 			}
@@ -137,6 +138,21 @@ func c17Monitor(st *engine.Step) {
 			}
 		}
 	}
+}
+
+// containsAnySpelling looks for the value itself, its URL-encoded spelling and
+// its spelling without base64 padding (how a token appears inside a logged URL).
+func containsAnySpelling(hay, v string) bool {
+	if strings.Contains(hay, v) {
+		return true
+	}
+	if e := url.QueryEscape(v); e != v && strings.Contains(hay, e) {
+		return true
+	}
+	if t := strings.TrimRight(v, "="); t != v && len(t) >= 16 && strings.Contains(hay, t) {
+		return true
+	}
+	return false
 }
 
 func kindOf(st *engine.Step) string {
